@@ -70,7 +70,19 @@ func CheckEpochs(c *core.Ctx, d1 *lref.DAG, desc string, sealFrame int, kind str
 	v1 := valsOf(w1)
 	v2 := valsOf(w2)
 	evs1, byID1 := Events(d1)
-	d2 := BuildRounds(RoundCfg{W: w2, Epoch: d1.Epoch + 1, R: d2rounds}, nil, -1, 0)
+	// the new epoch's DAG contains one fork by a validator holding < 1/3 (if there is one), adopted by
+	// validator 0, so that the new epoch's blocks list a cheater
+	forkSlot, forkVar := -1, 0
+	for v := len(w2.W) - 1; v >= 0 && len(w2.W) > 1; v-- {
+		if uint64(w2.W[v])*3 < totalW(w2.W) {
+			forkSlot, forkVar = len(w2.W)+v, 1 // round 1 (round-0 events have no parents to differ in)
+			if v == 0 {
+				forkVar = 2 // validator 1 adopts the fork branch
+			}
+			break
+		}
+	}
+	d2 := BuildRounds(RoundCfg{W: w2, Epoch: d1.Epoch + 1, R: d2rounds}, nil, forkSlot, forkVar)
 	evs2, byID2 := Events(d2)
 	name := func(id hash.Event) string {
 		if i, ok := byID1[id]; ok {
@@ -126,6 +138,7 @@ func CheckEpochs(c *core.Ctx, d1 *lref.DAG, desc string, sealFrame int, kind str
 	}
 	var sealObs string
 	var sealPathShort, sealPathLong, midPath []int
+	midBlocks := 0
 	sealedSomewhere := false
 	table := map[uint64]string{}
 	ideals, edges, _ := Lattice(d1, 20000, c.OutOfBudget, func(path []int, e int, nm uint64) bool {
@@ -164,8 +177,8 @@ func CheckEpochs(c *core.Ctx, d1 *lref.DAG, desc string, sealFrame int, kind str
 				return false
 			}
 			table[nm] = obs
-			if len(seq) >= 2 && len(seq) > len(midPath) && len(midPath) < 4 {
-				midPath = seq
+			if len(node.Blocks) > midBlocks || (len(node.Blocks) == midBlocks && len(seq) > len(midPath)) {
+				midPath, midBlocks = seq, len(node.Blocks) // the not yet sealed event set with most decided blocks
 			}
 			return true
 		}
@@ -336,7 +349,7 @@ func CheckEpochs(c *core.Ctx, d1 *lref.DAG, desc string, sealFrame int, kind str
 
 // ExploreEpochs runs the multi-epoch exploration (sealing at every decided frame, every kind of
 // next validator set, new epoch explored from sealed and Reset() instances).
-func ExploreEpochs(c *core.Ctx, rep Report) {
+func ExploreEpochs(c *core.Ctx, rep Report, light bool) {
 	quick := c.Quick()
 	cfgs := nodeConfigs()
 	kinds := []string{"same-object", "same-set", "reweighted", "removed", "added"}
@@ -345,7 +358,10 @@ func ExploreEpochs(c *core.Ctx, rep Report) {
 	add := func(w WeightVec, n, forks int) {
 		fams = append(fams, GenCfg{Weights: w.W, IDs: w.IDs, Epoch: 1, N: n, ForkBudget: forks, MaxLevelSet: 100000})
 	}
-	if quick {
+	if quick && light {
+		add(WV(3, 1), 5, 0)
+		kinds = []string{"same-object", "reweighted", "removed"}
+	} else if quick {
 		add(WV(3, 1), 5, 0)
 		add(WV(5, 1, 1), 4, 0)
 	} else {
@@ -362,7 +378,7 @@ func ExploreEpochs(c *core.Ctx, rep Report) {
 					if !c.Mine(item) || c.OutOfBudget() {
 						continue
 					}
-					CheckEpochs(c, d, fmt.Sprintf("epochs: F-all weights=%v N=%d", g.Weights, g.N), s, kind, 4, rep, cfgs[item%len(cfgs)])
+					CheckEpochs(c, d, fmt.Sprintf("epochs: F-all weights=%v N=%d", g.Weights, g.N), s, kind, 6, rep, cfgs[item%len(cfgs)])
 				}
 			}
 		})
@@ -372,6 +388,9 @@ func ExploreEpochs(c *core.Ctx, rep Report) {
 	if !quick {
 		rounds = append(rounds, RoundCfg{W: WV(2, 1, 1, 1), Epoch: 1, R: 8, Dev: 1, Lags: true, MaxLag: 5},
 			RoundCfg{W: WV(1, 1, 1, 1), Epoch: 1, R: 8, Dev: 2, Lags: true, MaxLag: 4, DevRounds: 3})
+	}
+	if quick && light {
+		rounds = nil
 	}
 	for _, r := range rounds {
 		r := r
